@@ -7,6 +7,7 @@ import (
 	"os"
 	"runtime/debug"
 	"runtime/pprof"
+	"strings"
 	"syscall"
 	"time"
 
@@ -35,6 +36,20 @@ var configs = map[string]Config{
 	// both pools start at a price of exactly 1
 	"unit": {Name: "unit", BalDenomA: "bar", BalDenomB: "foo", BalAmtA: 1000000000, BalAmtB: 1000000000, BalWA: 1, BalWB: 1, BalFee: "0.003",
 		CLToken0: "eth", CLToken1: "usdc", CLAmt0: 1000000000, CLAmt1: 1000000000, CLSpread: "0.001", CLTickSp: 100, KeepMs: 8000, PruneLimit: 2},
+	// pool 1 has THREE assets, i.e. three asset pairs (module order: bar/baz, bar/foo, baz/foo), all observed. A pruning pass
+	// has 4-5 records per pair to delete; 5 per block: the limit falls inside the pool, the next step re-walks its pairs
+	"multi3": {Name: "multi3", BalDenomA: "bar", BalDenomB: "foo", BalAmtA: 1000000000, BalAmtB: 2500000000, BalWA: 1, BalWB: 1, BalFee: "0.003",
+		BalExtra: []Asset{{"baz", 1600000000, 2}},
+		CLToken0: "eth", CLToken1: "usdc", CLAmt0: 1000000000, CLAmt1: 5000000000, CLSpread: "0.001", CLTickSp: 100, KeepMs: 8000, PruneLimit: 5},
+	// FOUR assets, six pairs (bar/baz, bar/foo, bar/qux, baz/foo, baz/qux, foo/qux); observed: the 2nd, 5th and 6th. A swap
+	// along bar/foo leaves the price of baz/qux unchanged (the module still writes a record for it) and vice versa
+	"multi4": {Name: "multi4", BalDenomA: "bar", BalDenomB: "foo", BalAmtA: 1000000000, BalAmtB: 2500000000, BalWA: 1, BalWB: 1, BalFee: "0.003",
+		BalExtra: []Asset{{"baz", 1600000000, 2}, {"qux", 700000000, 3}}, BalObserve: [][2]string{{"bar", "foo"}, {"baz", "qux"}, {"foo", "qux"}},
+		CLToken0: "eth", CLToken1: "usdc", CLAmt0: 1000000000, CLAmt1: 5000000000, CLSpread: "0.001", CLTickSp: 100, KeepMs: 8000, PruneLimit: 9},
+	// three-asset STABLESWAP pool (unit scaling factors), all three pairs observed
+	"stable3": {Name: "stable3", BalDenomA: "bar", BalDenomB: "foo", BalAmtA: 1000000000, BalAmtB: 1300000000, BalWA: 1, BalWB: 1, BalFee: "0.003",
+		BalExtra: []Asset{{"baz", 1150000000, 1}}, BalStable: true,
+		CLToken0: "eth", CLToken1: "usdc", CLAmt0: 1000000000, CLAmt1: 5000000000, CLSpread: "0.001", CLTickSp: 100, KeepMs: 8000, PruneLimit: 4},
 }
 
 const (
@@ -57,6 +72,13 @@ var alphabets = map[string][]Op{
 		{A: "swap", P: 0, D: 0, X: M, Dt: sec, Ns: 900000}, {A: "swap", P: 0, D: 1, X: L, Dt: 7 * sec},
 		{A: "swap", P: 1, D: 1, X: M, Dt: msec}, {A: "swap", P: 1, D: 0, X: L, Dt: 7 * sec, Ns: 100000},
 		{A: "toggle", Dt: sec}, {A: "prune", Dt: sec},
+	},
+	// configurations whose pool 1 has three observed pairs: swaps along each of them (Q = index of the observed pair), in
+	// both directions, so that the three price series move at different times and by different amounts
+	"multi": {
+		{A: "swap", P: 0, Q: 0, D: 0, X: M, Dt: sec, Ns: 900000}, {A: "swap", P: 0, Q: 2, D: 1, X: L, Dt: 7 * sec},
+		{A: "swap", P: 0, Q: 1, D: 0, X: S, Dt: msec}, {A: "swap", P: 1, D: 1, X: M, Dt: sec, Ns: 100000},
+		{A: "idle", Dt: 7 * sec}, {A: "prune", Dt: sec}, {A: "prune", Dt: msec},
 	},
 }
 
@@ -84,6 +106,21 @@ func seedOps(name string) []Op {
 		// the module's real trigger: the "day" epoch ends in the BeginBlocker of the block after the 25 h step
 		return append(aged, Op{A: "idle", Dt: 25 * hour})
 	}
+	// seeds for the configurations with three observed pairs of pool 1
+	aged3 := append(append([]Op{}, init...),
+		Op{A: "swap", P: 0, Q: 0, D: 0, X: M, Dt: sec, Ns: 700000}, Op{A: "swap", P: 0, Q: 2, D: 1, X: M, Dt: sec, Ns: 300000},
+		Op{A: "swap", P: 0, Q: 1, D: 1, X: L, Dt: 7 * sec}, Op{A: "swap", P: 1, D: 0, X: L, Dt: msec},
+		Op{A: "swap", P: 0, Q: 2, D: 0, X: S, Dt: sec}, Op{A: "swap", P: 0, Q: 0, D: 1, X: S, Dt: 7 * sec, Ns: 400000})
+	switch name {
+	case "aged3":
+		return aged3
+	case "pruning3":
+		// the cut-off (now - 8 s) falls strictly between two records of pool 1: the newest record older than it is what
+		// answers the first second of the window; the pass was started one block ago and interrupted by the limit
+		return append(aged3, Op{A: "idle", Dt: msec}, Op{A: "prune", Dt: sec})
+	case "epoch3":
+		return append(aged3, Op{A: "idle", Dt: 25 * hour})
+	}
 	panic("unknown seed " + name)
 }
 
@@ -94,7 +131,37 @@ type run struct {
 	Depth int    `json:"depth"`
 }
 
+// planFor: the runs on two-asset pools, followed by the runs on pools with three and four assets.
 func planFor(tier string) []run {
+	return append(planTwoAsset(tier), planMultiAsset(tier)...)
+}
+
+// shardRotation: the explorer gives the root and the first level of every run to shard 0; the multi-asset runs are dealt to
+// the shards rotated by a few places so that they start elsewhere. Which shard executes an item has no influence on
+// what is executed (the merged counts are those of any other assignment).
+func shardRotation(tier string, ri int) int {
+	n := len(planTwoAsset(tier))
+	if ri < n {
+		return 0
+	}
+	return 1 + 3*(ri-n)
+}
+
+func planMultiAsset(tier string) []run {
+	if tier == "thorough" {
+		return []run{
+			{"multi3", "init", "multi", 3}, {"multi3", "aged3", "multi", 3}, {"multi3", "pruning3", "multi", 3}, {"multi3", "epoch3", "multi", 3},
+			{"multi4", "aged3", "multi", 2}, {"multi4", "pruning3", "multi", 3}, {"multi4", "epoch3", "multi", 2},
+			{"stable3", "init", "multi", 2}, {"stable3", "pruning3", "multi", 2}, {"stable3", "epoch3", "multi", 2},
+		}
+	}
+	return []run{
+		{"multi3", "init", "multi", 2}, {"multi3", "aged3", "multi", 2}, {"multi3", "pruning3", "multi", 2}, {"multi3", "epoch3", "multi", 2},
+		{"multi4", "pruning3", "multi", 2},
+	}
+}
+
+func planTwoAsset(tier string) []run {
 	if tier == "thorough" {
 		return []run{
 			{"moderate", "genesis", "wide", 3}, {"moderate", "init", "wide", 4}, {"moderate", "init", "narrow", 5},
@@ -154,7 +221,7 @@ func runReplay(f *core.Flags, r *core.Result) {
 		var out string
 		ctx, out = w.Apply(ctx, l, op, fail)
 		fmt.Printf("step %d %s -> %s\n", i, op, out)
-		for pi := range w.Pools {
+		for pi := range w.Pairs {
 			fmt.Printf("   %s\n", w.describe(l, pi, ms(ctx.BlockTime())))
 		}
 		w.Check(ctx, l, fail)
@@ -185,11 +252,20 @@ func main() {
 		}
 	}
 	plan := planFor(f.Tier)
+	planIdx := map[run]int{}
+	for i, rn := range plan {
+		planIdx[rn] = i
+	}
 	if only := os.Getenv("VERIF_ONLY_RUN"); only != "" {
 		var sel []run
+		// development aid: comma-separated run names config/seed/alphabet; a trailing * matches any rest
 		for _, rn := range plan {
-			if fmt.Sprintf("%s/%s/%s", rn.Cfg, rn.Seed, rn.Alpha) == only {
-				sel = append(sel, rn)
+			name := fmt.Sprintf("%s/%s/%s", rn.Cfg, rn.Seed, rn.Alpha)
+			for _, o := range strings.Split(only, ",") {
+				if name == o || (strings.HasSuffix(o, "*") && strings.HasPrefix(name, strings.TrimSuffix(o, "*"))) {
+					sel = append(sel, rn)
+					break
+				}
 			}
 		}
 		plan = sel
@@ -235,7 +311,9 @@ func main() {
 			},
 			LedgerKey: func(l *Ledger) []byte { return l.digest() },
 		}
-		ex := core.NewExplorer(sc, f, r)
+		fr := *f
+		fr.Shard = (f.Shard + shardRotation(f.Tier, planIdx[rn])) % f.NShards
+		ex := core.NewExplorer(sc, &fr, r)
 		t0 := time.Now()
 		st0 := r.States
 		ex.Run(rn.Seed, ctx, l, rn.Depth)
